@@ -909,7 +909,7 @@ func (h *vgcH) gcOp() string {
 		}
 	}
 	// ---- C06
-	if graceOver {
+	if graceOver && errGC == nil {
 		h.cov["judged-grace-over"]++
 		for _, e := range post.ents {
 			if e.dig != 0 && !post.exists(e.dig) {
